@@ -82,7 +82,8 @@ func newSessWorld(mechs []string) *vSessWorld {
 		if g.mechs["u2f"] {
 			tok := newU2FToken(u)
 			g.tokens[u] = tok
-			p.U2fAuthData[1] = &u2fAuthData{Enabled: true, Name: "tok-" + u, Registration: tok.registration(), CreatedAt: time.Unix(1700000000, 0)}
+			p.U2fAuthData[1] = &u2fAuthData{Enabled: true, Name: "tok-" + u, Registration: tok.registration(), CreatedAt: time.Unix(1700000000, 0),
+				Counter: 1000} // the signature counter the server last saw
 			// ... and a second hardware token, enrolled through the WebAuthn API and since DISABLED (lost): it is the
 			// user's, it still signs, it must not count
 			lost := newU2FToken("lost-" + u)
